@@ -444,17 +444,23 @@ class Body:
             return i + 1
 
     def method_to_fn(self, method, repl, count="*"):
-        """R5 method-call-to-function-call: `RECV.method(ARGS)` -> repl with $recv / $args substituted.
-        Only the `.method(` ... `)` tokens and the receiver's boundaries are edited, the receiver text stays."""
+        """R5 method-call-to-function-call: `RECV.method(ARGS)` -> repl, where repl contains `$recv` and
+        optionally `$args`.  `method` may carry required argument text, e.g. `map(Self)`.
+        Only the tokens `.method(` and `)` are edited; receiver and argument text stay in place, so
+        other edits inside them still apply."""
         toks = self.toks
         n = 0
-        i = self.open + 1
+        req_args = None
+        mm = re.fullmatch(r"(\w+)\((.*)\)", method.strip())
+        if mm:
+            method, req_args = mm.group(1), [t.text for t in lex(mm.group(2))]
         pre, _, post = repl.partition("$recv")
+        post_a, has_args, post_b = post.partition("$args")
+        i = self.open + 1
         while i < self.close:
             if toks[i].text == "." and toks[i + 1].kind == "ident" and toks[i + 1].text == method and toks[i + 2].text in ("(", "::"):
                 j = i + 2
                 if toks[j].text == "::":
-                    # turbofish
                     d = 0
                     j += 1
                     while True:
@@ -467,14 +473,21 @@ class Body:
                         j += 1
                     j += 1
                 k = match_close(toks, j)
+                if req_args is not None and [t.text for t in toks[j + 1:k]] != req_args:
+                    i = j
+                    continue
                 rs = self.receiver_start(i)
-                args = self.src[toks[j].end:toks[k].start].strip()
-                post_k = post.replace("$args", args)
-                if "$args" in post and not args:
-                    post_k = post_k.replace(", )", ")").replace(",)", ")")
+                orig = self.src[toks[rs].start:toks[k].end]
                 self.edits.append((toks[rs].start, toks[rs].start, pre, "R5-m2f"))
-                self.edits.append((toks[i].start, toks[k].end, post_k, "R5-m2f"))
-                self.report.append(("R5-m2f", f"{self.src[toks[rs].start:toks[k].end]}  =>  {pre}{self.src[toks[rs].start:toks[i].start]}{post_k}"[:200]))
+                if has_args and req_args is None:
+                    pa = post_a
+                    if k == j + 1:  # no arguments
+                        pa = re.sub(r",\s*$", "", pa)
+                    self.edits.append((toks[i].start, toks[j].end, pa, "R5-m2f"))
+                    self.edits.append((toks[k].start, toks[k].end, post_b, "R5-m2f"))
+                else:
+                    self.edits.append((toks[i].start, toks[k].end, post, "R5-m2f"))
+                self.report.append(("R5-m2f", f"{orig}  =>  {pre}<receiver>{post}"[:200]))
                 n += 1
                 i = j
                 continue
